@@ -8,7 +8,6 @@ import (
 	"sync"
 	"sync/atomic"
 	"testing"
-	"time"
 
 	"github.com/libsv/go-bt/v2"
 	"pgregory.net/rapid"
@@ -36,9 +35,18 @@ type Duel struct {
 	Third  bool   `json:"third"` // a third goroutine reads while the two write
 }
 
-var duelKinds = []string{"expiry-expiry", "expiry-expired", "addquote-addquote", "addquote-marshal", "unmarshal-unmarshal", "unmarshal-fee", "updateminer-updateminer", "addminer-updateminer"}
+var duelKinds = []string{"expiry-expiry", "expiry-expired", "addquote-addquote", "addquote-marshal", "unmarshal-unmarshal", "unmarshal-fee", "updateminer-updateminer", "addminer-updateminer",
+	// ninth round: a look-up that fails (a poller asks lookupBurst times in a row for a miner nobody added, a
+	// miner registered with a nil quote, a fee type nobody stored) against ONE container-level / quote-level writer
+	"feemissing-addminer", "feemissing-updateminer", "feenilminer-adddefault", "feeunknowntype-updateminer", "feeunknowntype-addminer", "quotemissing-addminer", "quotefeeunknown-addquote"}
+
+const lookupBurst = 8
 
 func checkDuel(ctx *pbt.Ctx, c Duel) error {
+	if skipAbandoned(ctx) {
+		return nil
+	}
+	var bt8 beat
 	if c.Rounds < 1 || c.Rounds > 20000 || c.Procs < 1 || c.Procs > 64 {
 		ctx.Discard("malformed case")
 		return nil
@@ -69,6 +77,7 @@ func checkDuel(ctx *pbt.Ctx, c Duel) error {
 					runtime.Gosched()
 				}
 				f()
+				bt8.tick()
 			}
 		}
 		var a, b, r func()
@@ -128,6 +137,52 @@ func checkDuel(ctx *pbt.Ctx, c Duel) error {
 			a = func() { qs.AddMiner("m1", bt.NewFeeQuote()) }
 			b = func() { _, _ = qs.UpdateMinerFees("m0", bt.FeeTypeData, feeObj(idB, 1)) }
 			r = func() { _, _ = qs.Quote("m1") }
+		case "feemissing-addminer", "feemissing-updateminer", "feenilminer-adddefault", "feeunknowntype-updateminer", "feeunknowntype-addminer", "quotemissing-addminer":
+			// the look-up has one documented answer, whatever the writers do meanwhile
+			name, ft, want := "nobody", bt.FeeTypeStandard, bt.ErrMinerNoQuotes
+			switch c.Kind {
+			case "feenilminer-adddefault":
+				name = "mn"
+				qs.AddMiner("mn", nil)
+			case "feeunknowntype-updateminer", "feeunknowntype-addminer":
+				name, ft, want = "m0", otherType, bt.ErrFeeTypeNotFound
+			}
+			a = func() {
+				for k := 0; k < lookupBurst; k++ {
+					if c.Kind == "quotemissing-addminer" {
+						if fq, err := qs.Quote(name); fq != nil || !errors.Is(err, want) {
+							fail("Quote(%s) for a miner nobody adds returned (%v, %v), documented: %v", name, fq, err, want)
+						}
+						continue
+					}
+					if f, err := qs.Fee(name, ft); f != nil || !errors.Is(err, want) {
+						fail("Fee(%s, %s) returned (%v, %v), documented: nil and %v", name, ft, f, err, want)
+					}
+				}
+			}
+			upd := func() {
+				if _, err := qs.UpdateMinerFees("m0", bt.FeeTypeData, feeObj(idB, 1)); err != nil {
+					fail("UpdateMinerFees(m0) failed: %v", err)
+				}
+			}
+			switch c.Kind {
+			case "feemissing-addminer", "feeunknowntype-addminer", "quotemissing-addminer":
+				b, r = func() { qs.AddMiner("m1", bt.NewFeeQuote()) }, upd
+			case "feemissing-updateminer", "feeunknowntype-updateminer":
+				b, r = upd, func() { qs.AddMinerWithDefault("m1") }
+			default:
+				b, r = func() { qs.AddMinerWithDefault("m1") }, upd
+			}
+		case "quotefeeunknown-addquote":
+			a = func() {
+				for k := 0; k < lookupBurst; k++ {
+					if f, err := q.Fee(otherType); f != nil || !errors.Is(err, bt.ErrFeeTypeNotFound) {
+						fail("quote.Fee(%s) returned (%v, %v), documented: nil and ErrFeeTypeNotFound", otherType, f, err)
+					}
+				}
+			}
+			b = func() { q.AddQuote(bt.FeeTypeStandard, feeObj(idB, 0)) }
+			r = func() { q.UpdateExpiry(future) }
 		}
 		var wg sync.WaitGroup
 		fs := []func(){a, b}
@@ -144,10 +199,8 @@ func checkDuel(ctx *pbt.Ctx, c Duel) error {
 		atomic.StoreInt32(&gate, 1)
 		done := make(chan struct{})
 		go func() { wg.Wait(); close(done) }()
-		select {
-		case <-done:
-		case <-time.After(60 * time.Second):
-			return fmt.Errorf("duel %s, round %d: the calls did not return within 60 s (blocked)", c.Kind, round)
+		if err := bounded(done, &bt8, fmt.Sprintf("duel %s, round %d", c.Kind, round)); err != nil {
+			return err
 		}
 		if readErr != nil {
 			return fmt.Errorf("duel %s, round %d: %v", c.Kind, round, readErr)
@@ -221,6 +274,31 @@ func checkDuel(ctx *pbt.Ctx, c Duel) error {
 			if id, tt, okF := decodeFee(valOf(f)); !okF || tt != 1 || id != idB {
 				return fmt.Errorf("duel %s, round %d: Fee(m0, data) = %+v, the value written is lost", c.Kind, round, valOf(f))
 			}
+		case "feemissing-addminer", "feemissing-updateminer", "feenilminer-adddefault", "feeunknowntype-updateminer", "feeunknowntype-addminer", "quotemissing-addminer":
+			// at rest: the writes are there, and the look-up still has its one answer
+			if fq, err := qs.Quote("m1"); (err != nil || fq == nil) && (c.Third || (c.Kind != "feemissing-updateminer" && c.Kind != "feeunknowntype-updateminer")) {
+				return fmt.Errorf("duel %s, round %d: the miner added is missing at rest: %v", c.Kind, round, err)
+			}
+			if c.Third || c.Kind == "feemissing-updateminer" || c.Kind == "feeunknowntype-updateminer" {
+				f, err := qs.Fee("m0", bt.FeeTypeData)
+				if err != nil {
+					return fmt.Errorf("duel %s, round %d: Fee fails at rest: %v", c.Kind, round, err)
+				}
+				if id, tt, okF := decodeFee(valOf(f)); !okF || tt != 1 || id != idB {
+					return fmt.Errorf("duel %s, round %d: Fee(m0, data) = %+v, the value written is lost", c.Kind, round, valOf(f))
+				}
+			}
+			if f, err := qs.Fee("nobody", bt.FeeTypeStandard); f != nil || !errors.Is(err, bt.ErrMinerNoQuotes) {
+				return fmt.Errorf("duel %s, round %d: at rest Fee(nobody) = (%v, %v)", c.Kind, round, f, err)
+			}
+		case "quotefeeunknown-addquote":
+			f, err := q.Fee(bt.FeeTypeStandard)
+			if err != nil {
+				return fmt.Errorf("duel %s, round %d: Fee(standard) fails at rest: %v", c.Kind, round, err)
+			}
+			if id, tt, okF := decodeFee(valOf(f)); !okF || tt != 0 || id != idB {
+				return fmt.Errorf("duel %s, round %d: Fee(standard) = %+v, the value written is lost", c.Kind, round, valOf(f))
+			}
 		}
 	}
 	ctx.Label("duel=" + c.Kind)
@@ -248,24 +326,46 @@ func TestDuels(t *testing.T) {
 // and from other goroutines - must still return.
 // ---------------------------------------------------------------------------
 
-// EPCase is a sequence of calls; Bad marks the refused ones.
+// EPCase is a sequence of calls.
 type EPCase struct {
 	Ops   []int `json:"ops"`
 	Split int   `json:"split"` // the calls from this index on run on a second goroutine after the first part
+	// Loops > 0 (ninth round): the two parts run AT THE SAME TIME, each repeated Loops times - the
+	// refused look-ups of one goroutine overlap the container-level writers of the other
+	Loops int `json:"loops,omitempty"`
 }
 
 var epNames = []string{"UpdateMinerFees(\"\",std,fee)", "UpdateMinerFees(m0,\"\",fee)", "UpdateMinerFees(m0,std,nil)", "UpdateMinerFees(unknown,std,fee)", "Fee(unknown,std)", "Fee(m0,unknown type)", "Quote(unknown)",
-	"quote.UnmarshalJSON(malformed)", "quote.Fee(unknown type)", "AddMiner(m1,quote)", "AddMinerWithDefault(m2)", "UpdateMinerFees(m0,std,fee)", "Fee(m0,std)", "Quote(m0)", "quote.AddQuote", "quote.UpdateExpiry", "quote.Expired", "json.Marshal(quote)"}
+	"quote.UnmarshalJSON(malformed)", "quote.Fee(unknown type)", "AddMiner(m1,quote)", "AddMinerWithDefault(m2)", "UpdateMinerFees(m0,std,fee)", "Fee(m0,std)", "Quote(m0)", "quote.AddQuote", "quote.UpdateExpiry", "quote.Expired", "json.Marshal(quote)",
+	"AddMiner(m3,nil)", "Fee(m3,std) [never added or added with a nil quote]", "UpdateMinerFees(m3,std,fee)", "Fee(m3,unknown type)"}
+
+// epRefused: the call is refused whatever else happened before or happens meanwhile.
+func epRefused(k int) bool {
+	k %= len(epNames)
+	return k <= 8 || k >= 19
+}
 
 func checkEP(ctx *pbt.Ctx, c EPCase) error {
-	if len(c.Ops) == 0 || len(c.Ops) > 64 {
+	if skipAbandoned(ctx) {
+		return nil
+	}
+	if len(c.Ops) == 0 || len(c.Ops) > 64 || c.Loops < 0 || c.Loops > 5000 {
 		ctx.Discard("malformed case")
 		return nil
 	}
 	qs := bt.NewFeeQuotes("m0")
 	q, _ := qs.Quote("m0")
-	do := func(k int) {
-		switch k % len(epNames) {
+	// a look-up that must fail has one documented answer - no value and the error named in the
+	// documentation of Fee / Quote - whatever the other goroutine does meanwhile
+	want := func(what string, f any, isNil bool, err, target error) error {
+		if !isNil || !errors.Is(err, target) {
+			return fmt.Errorf("%s returned (%v, %v), documented: nil and %v", what, f, err, target)
+		}
+		return nil
+	}
+	do := func(k int) error {
+		k %= len(epNames)
+		switch k {
 		case 0:
 			_, _ = qs.UpdateMinerFees("", bt.FeeTypeStandard, feeObj(1, 0))
 		case 1:
@@ -275,16 +375,20 @@ func checkEP(ctx *pbt.Ctx, c EPCase) error {
 		case 3:
 			_, _ = qs.UpdateMinerFees("nobody", bt.FeeTypeStandard, feeObj(1, 0))
 		case 4:
-			_, _ = qs.Fee("nobody", bt.FeeTypeStandard)
+			f, err := qs.Fee("nobody", bt.FeeTypeStandard)
+			return want(epNames[k], f, f == nil, err, bt.ErrMinerNoQuotes)
 		case 5:
-			_, _ = qs.Fee("m0", bt.FeeType("other"))
+			f, err := qs.Fee("m0", otherType)
+			return want(epNames[k], f, f == nil, err, bt.ErrFeeTypeNotFound)
 		case 6:
-			_, _ = qs.Quote("nobody")
+			fq, err := qs.Quote("nobody")
+			return want(epNames[k], fq, fq == nil, err, bt.ErrMinerNoQuotes)
 		case 7:
 			_ = json.Unmarshal([]byte(`{"standard":`), q)
 			_ = q.UnmarshalJSON([]byte(`{"standard": 5}`))
 		case 8:
-			_, _ = q.Fee(bt.FeeType("other"))
+			f, err := q.Fee(otherType)
+			return want(epNames[k], f, f == nil, err, bt.ErrFeeTypeNotFound)
 		case 9:
 			qs.AddMiner("m1", bt.NewFeeQuote())
 		case 10:
@@ -301,55 +405,109 @@ func checkEP(ctx *pbt.Ctx, c EPCase) error {
 			q.UpdateExpiry(timeOf(4, true))
 		case 16:
 			_ = q.Expired()
-		default:
+		case 17:
 			_, _ = json.Marshal(q)
+		case 18:
+			qs.AddMiner("m3", nil)
+		case 19, 21:
+			// m3 is either unknown or registered without a quote: no fees either way
+			ft := bt.FeeTypeStandard
+			if k == 21 {
+				ft = otherType
+			}
+			f, err := qs.Fee("m3", ft)
+			return want(epNames[k], f, f == nil, err, bt.ErrMinerNoQuotes)
+		default:
+			_, _ = qs.UpdateMinerFees("m3", bt.FeeTypeStandard, feeObj(5, 0))
+		}
+		return nil
+	}
+	split := c.Split
+	if split < 0 || split > len(c.Ops) {
+		split = len(c.Ops)
+	}
+	var bt8 beat
+	var at [2]atomic.Int32
+	at[0].Store(-1)
+	at[1].Store(-1)
+	var errMu sync.Mutex
+	var first error
+	part := func(who, from, to, loops int) {
+		for l := 0; l < loops; l++ {
+			for i := from; i < to; i++ {
+				at[who].Store(int32(i))
+				if err := do(c.Ops[i]); err != nil {
+					errMu.Lock()
+					if first == nil {
+						first = fmt.Errorf("call %d (loop %d): %v", i, l, err)
+					}
+					errMu.Unlock()
+				}
+				bt8.tick()
+			}
 		}
 	}
-	var at atomic.Int32
-	at.Store(-1)
 	done := make(chan struct{})
-	go func() {
-		defer close(done)
-		split := c.Split
-		if split < 0 || split > len(c.Ops) {
-			split = len(c.Ops)
-		}
-		for i := 0; i < split; i++ {
-			at.Store(int32(i))
-			do(c.Ops[i])
-		}
-		second := make(chan struct{})
+	if c.Loops == 0 {
 		go func() {
-			defer close(second)
-			for i := split; i < len(c.Ops); i++ {
-				at.Store(int32(i))
-				do(c.Ops[i])
-			}
+			defer close(done)
+			part(0, 0, split, 1)
+			second := make(chan struct{})
+			go func() {
+				defer close(second)
+				part(1, split, len(c.Ops), 1)
+			}()
+			<-second
 		}()
-		<-second
-	}()
-	select {
-	case <-done:
-	case <-time.After(60 * time.Second):
-		i := int(at.Load())
-		name := "?"
-		if i >= 0 && i < len(c.Ops) {
-			name = epNames[c.Ops[i]%len(epNames)]
+	} else {
+		var wg sync.WaitGroup
+		start := make(chan struct{})
+		wg.Add(2)
+		go func() { defer wg.Done(); <-start; part(0, 0, split, c.Loops) }()
+		go func() { defer wg.Done(); <-start; part(1, split, len(c.Ops), c.Loops) }()
+		close(start)
+		go func() { wg.Wait(); close(done) }()
+	}
+	if err := bounded(done, &bt8, "errorpaths"); err != nil {
+		var in []string
+		for who := range at {
+			if i := int(at[who].Load()); i >= 0 && i < len(c.Ops) {
+				in = append(in, fmt.Sprintf("goroutine %d in call %d (%s)", who, i, epNames[c.Ops[i]%len(epNames)]))
+			}
 		}
 		var hist []string
-		for j := 0; j <= i && j < len(c.Ops); j++ {
-			hist = append(hist, epNames[c.Ops[j]%len(epNames)])
+		for _, k := range c.Ops {
+			hist = append(hist, epNames[k%len(epNames)])
 		}
-		return fmt.Errorf("call %d (%s) did not return within 60 s: the container is blocked after %v", i, name, hist)
+		return fmt.Errorf("%v; %v; the calls: %v, second goroutine from call %d, loops %d", err, in, hist, split, c.Loops)
+	}
+	if first != nil {
+		return first
 	}
 	if _, err := qs.Quote("m0"); err != nil {
 		return errors.New("the initial miner's quote is gone after the sequence: " + err.Error())
 	}
 	ctx.Labelf("calls=%d", min(len(c.Ops), 16))
-	refused := 0
-	for _, k := range c.Ops {
-		if k%len(epNames) <= 8 {
+	refused, lookups, cwriters := 0, [2]bool{}, [2]bool{}
+	for i, k := range c.Ops {
+		who := 0
+		if i >= split {
+			who = 1
+		}
+		if epRefused(k) {
 			refused++
+		}
+		switch k % len(epNames) {
+		case 4, 5, 6, 19, 21:
+			lookups[who] = true
+		case 9, 10, 11, 18:
+			cwriters[who] = true
+		}
+	}
+	if c.Loops > 0 {
+		ctx.Label("concurrent")
+		if (lookups[0] && cwriters[1]) || (lookups[1] && cwriters[0]) {
+			ctx.Label("concurrent: failing look-up next to a container-level writer")
 		}
 	}
 	if refused > 0 && refused < len(c.Ops) {
@@ -368,6 +526,7 @@ func TestErrorPaths(t *testing.T) {
 				c.Ops = append(c.Ops, rapid.IntRange(0, len(epNames)-1).Draw(t, "op"))
 			}
 			c.Split = rapid.IntRange(0, n).Draw(t, "split")
+			c.Loops = rapid.SampledFrom([]int{0, 0, 0, 20, 60, 150}).Draw(t, "loops")
 			return c
 		},
 		Check: checkEP, Precommit: true,
